@@ -43,7 +43,10 @@ def task(R, item):
                 sx, sy, ex_, ey = [sym_int(n, 16, False) for n in ("sx", "sy", "ex", "ey")]
                 assume = [ex_ - sx, ey - sy, g.lw - 1 - ex_, g.lh - 1 - ey]
             try:
-                ex, g, res = D.run_draw(R, F, rec, q, m, assume=assume)
+                # the accumulator invariants of the batching pipeline do not depend on the orientation: the quick tier
+                # derives them (and checks the groups of the batched draw_iter) for two orientations, the thorough tier for all
+                groups = nm == "draw_iter" and (not F.batch or R.tier == "thorough" or (q, m) in ((0, False), (1, True)))
+                ex, g, res = D.run_draw(R, F, rec, q, m, assume=assume, struct_inv=(groups and F.batch))
             except E.Undecided as e:
                 R.undecided("C08", "%s|%s|undecided" % (otag, nm), str(e))
                 continue
@@ -66,6 +69,50 @@ def task(R, item):
                     R.ob("C08a-framing", "%s|error-prefix|%r" % (tag, o.value), bool(fin),
                          "an error path of %s is not a prefix of the framing language" % nm)
             R.floor("%s paths" % tag, nsucc, 1)
+            # (c) / (d) for draw_iter: every group emitted inside its loop, on the facts of that iteration (loop
+            # invariants included: for the batched pipeline the relational invariants of the row / block accumulators)
+            if nm == "draw_iter" and groups:
+                ngroups = 0
+                seen_groups = set()
+                for o in res.returns():
+                    cur = {}
+                    for a_ in TR.annotate(o.state.trace, res.loops):
+                        s_ = TR.classify(a_["ev"])
+                        st_ = a_.get("state")
+                        if st_ is None:
+                            continue
+                        if s_.cls == "WCMD" and D.wsym(s_) in ("CASET", "RASET") and isinstance(s_.extra, Agg):
+                            cur.setdefault(id(st_), {})[D.wsym(s_)] = C.ctor_args(s_.extra, orders[D.wsym(s_)])
+                        elif s_.cls == "PIX" and id(st_) in cur and len(cur[id(st_)]) == 2:
+                            if id(st_) in seen_groups:
+                                continue
+                            seen_groups.add(id(st_))
+                            ngroups += 1
+                            fw = st_.facts
+                            gtag = "%s|group%d" % (tag, ngroups)
+                            (c0, c1), (p0, p1) = [tuple(fw.simplify(v) for v in cur[id(st_)][k]) for k in ("CASET", "RASET")]
+                            for nmw, w0s, w1s, lim in (("columns", c0, c1, g.col_limit()), ("pages", p0, p1, g.row_limit())):
+                                R.ob("C08c-start-le-end", "%s|%s" % (gtag, nmw), fw.entails_ge0(w1s - w0s, use_eq=True) is not None,
+                                     "%s start %r may exceed end %r in a window of draw_iter" % (nmw, w0s, w1s))
+                                R.ob("C08c-end-inside-framebuffer", "%s|%s" % (gtag, nmw), fw.entails_ge0(lim - 1 - w1s, use_eq=True) is not None,
+                                     "%s end %r not provably inside the framebuffer" % (nmw, w1s))
+                            it = a_["ev"].args[1] if len(a_["ev"].args) > 1 else None
+                            area = (c1 - c0 + 1) * (p1 - p0 + 1)
+                            cnt = None
+                            if isinstance(it, Agg) and it.name == D.HVEC and it.fields and isinstance(it.fields[0], IntV):
+                                cnt = fw.simplify(it.fields[0].poly())          # a heapless::Vec of colours: its length
+                            elif isinstance(it, Agg) and it.name == "core::iter::once":
+                                cnt = ONE
+                            if cnt is None:
+                                R.undecided("C08", "%s|burst-shape" % gtag, "colour burst of draw_iter has unexpected shape %r" % (it,))
+                                continue
+                            ok = fw.entails_ge0(area - cnt, use_eq=True) is not None
+                            R.ob("C08d-pixel-count-within-window", "%s|count<=area" % gtag, ok,
+                                 "draw_iter sends %r colours into a window of %r pixels: not provably <= (the write pointer may wrap)" % (cnt, area),
+                                 sample={"entry": nm, "count": repr(cnt), "window_area": repr(area)})
+                            R.ob("C08d-pixel-count-equals-window", "%s|count>=area" % gtag, fw.entails_ge0(cnt - area, use_eq=True) is not None,
+                                 "draw_iter sends %r colours into a window of %r pixels: not provably the whole window" % (cnt, area))
+                R.floor("%s window groups inside the loop" % tag, ngroups, 1)
             # (c) / (d)
             if nm in ("fill_solid", "fill_contiguous", "set_pixel"):
                 branch = 0
